@@ -424,6 +424,43 @@ def obligations(tier):
             pref = pref * 0.5
         cx.close(ppath, pref, label=f'run[{name}]: product of requested outcome probabilities == Born probability of the recorded results')
 
+    # ---- D2: terminal-measurement sampling fast path with BOTH a confusion map and an invert mask ------------------
+    # documented (MeasurementGate): the confusion map is "applied before invert_mask if both are provided"
+    def run_confusion_body(cx, wrong=False):
+        q = cirq.LineQubit.range(2)
+        t = cx.real('t', -4.0, 4.0)
+        c0 = cx.real('c0', 0.0, 1.0)
+        c1 = cx.real('c1', 0.0, 1.0)
+        inv = [(False, False), (False, True), (True, False), (True, True)][cx.choose('invert', 4)]
+        cm = np.empty((2, 2), dtype=object if cx.mode != 'concrete' else float)
+        cm[0, 0], cm[0, 1], cm[1, 0], cm[1, 1] = 1 - c0, c0, c1, 1 - c1
+        # measured order (q1, q0); index 1 of the confusion map is q0, the rotated qubit
+        circuit = cirq.Circuit(cirq.X(q[0]) ** t, cirq.measure(q[1], q[0], key='a', invert_mask=inv, confusion_map={(1,): cm}))
+        simk = cx.choose('simulator', 2)
+        prng = make_prng(cx)
+        # split_untangled_states=False: one joint sampling draw over (q1, q0) instead of one draw per factor
+        sim = cirq.Simulator(seed=prng, dtype=np.complex128, split_untangled_states=False) if simk == 0 else cirq.DensityMatrixSimulator(seed=prng, dtype=np.complex128, split_untangled_states=False)
+        res = sim.run(circuit, repetitions=1)
+        rec = [int(b) for b in res.records['a'][0][0]]
+        cx.check(len(prng.log) == 2, label='run(terminal, confusion+invert): one sampling draw and one confusion draw')
+        if len(prng.log) != 2:
+            return
+        (pv1, k1), (pv2, k2) = prng.log
+        raw = list(itertools.product((0, 1), repeat=2))[k1]  # (q1, q0) big endian
+        psi = np.zeros((2, 2), dtype=object)
+        psi[:] = 0
+        psi[0, 0] = 1
+        psi = EM.apply_matrix_to_axes(D.X(t), psi, [0])
+        exp_p = [born(psi, [1, 0], o)[0] for o in itertools.product((0, 1), repeat=2)]
+        cx.close(np.array(pv1, dtype=object), np.array(exp_p, dtype=object), label='run(terminal, confusion+invert): sampling probabilities == Born marginals')
+        row = [1 - c0, c0] if raw[1] == 0 else [c1, 1 - c1]
+        if wrong:
+            row = row[::-1]
+        cx.close(np.array(pv2, dtype=object), np.array(row, dtype=object), label='run(terminal, confusion+invert): confusion draw uses the row of the ACTUAL outcome (confusion before invert mask)')
+        cx.check(rec == [raw[0] ^ int(inv[0]), k2 ^ int(inv[1])], label='run(terminal, confusion+invert): record = confused outcome xor invert mask')
+
+    obs.append(Obligation('run_terminal.confusion_invert', run_confusion_body, twin=lambda cx: run_confusion_body(cx, wrong=True), expected=(ZeroDivisionError,), opts={'weight': 8}, desc='Simulator.run / DensityMatrixSimulator.run on a circuit whose only measurement is terminal (sampling fast path, sample_measurement_ops) and has BOTH a confusion map (symbolic probabilities) and an invert mask (split_untangled_states=False so that the sampling draw is joint): the confusion row is that of the actual outcome and the invert mask is applied afterwards, as documented and as the mid-circuit path (act_on_measure obligation) does'))
+
     for pi_, (pname, _f) in enumerate(PROGS):
         obs.append(Obligation(f'run_joint_distribution.{pname}', lambda cx, pi_=pi_: run_body(cx, pi_=pi_), twin=lambda cx, pi_=pi_: run_body(cx, wrong=True, pi_=pi_), expected=(ZeroDivisionError,), opts={'weight': 20, 'max_paths': 100000}, desc='Simulator.run and DensityMatrixSimulator.run (1-2 repetitions, scripted generator, every outcome branch) with symbolic rotations: on every path the product of the probabilities the simulator requested for the drawn outcomes equals the Born-rule probability of the RECORDED results computed by sequential projection on the documented evolution (terminal sampling fast path, mid-circuit measurement, invert masks, repeated key, classically controlled gate)'))
     return obs
